@@ -54,7 +54,7 @@ fn process_mesh_assets(
         return;
     };
     for (id, mesh) in map.drain() {
-        sync_tracker.pushed_handles_from_network.insert(id);
+        sync_tracker.push_network_handle_change(id);
         let id: AssetId<Mesh> = AssetId::Uuid { uuid: id };
         meshes.insert(id, bin_to_mesh(&mesh));
     }
@@ -69,7 +69,7 @@ fn process_image_assets(
         return;
     };
     for (id, image) in map.drain() {
-        sync_tracker.pushed_handles_from_network.insert(id);
+        sync_tracker.push_network_handle_change(id);
         let id: AssetId<Image> = AssetId::Uuid { uuid: id };
         let Some(img) = bin_to_image(&image) else {
             continue;
@@ -87,7 +87,7 @@ fn process_audio_assets(
         return;
     };
     for (id, audio) in map.drain() {
-        sync_tracker.pushed_handles_from_network.insert(id);
+        sync_tracker.push_network_handle_change(id);
         let id: AssetId<AudioSource> = AssetId::Uuid { uuid: id };
         audios.insert(
             id,
